@@ -5,7 +5,7 @@ I2CMaster, Timer, Watchdog, WaitTimer, timeline, PWM) are elaborated and run on 
 simulator; pin-level protocol monitors written from the external standards / the class documentation
 (props/c19_uart.py, c19_spi.py, c19_i2c.py, c19_timers.py) decide."""
 from lib.collect import Collector
-from props import c19_uart, c19_spi, c19_i2c, c19_timers
+from props import c19_uart, c19_spi, c19_i2c, c19_timers, c19_bone
 
 LEVEL = "exploration"
 RULE = ("one case = one simulation of one real core under one seeded stimulus: UART TX (8 tuning words clk/baud 4..33.7 incl. "
@@ -15,7 +15,9 @@ RULE = ("one case = one simulation of one real core under one seeded stimulus: U
         "start + MOSI rewrite / loopback / manual CS / start held, start at every divider phase, with a zero-delay MISO responder; "
         "SPISlave against a mode-0 master BFM; I2CMaster on an open-drain bus model with a slave responder: well-formed programs, "
         "commands in any order (polling idle), commands written while busy; Timer / Watchdog behind a real CSRBank under random "
-        "register writes; WaitTimer, timeline, PWM under random stimulus. Non-trivial = the monitor of the case saw at least a few "
+        "register writes; WaitTimer, timeline, PWM under random stimulus; the serial-to-Wishbone bridge of uart.py (Stream2Wishbone, "
+        "data 16/32, address 16/32/64 bit) fed command streams with byte gaps, unknown commands and commands cut short by the host "
+        "(silence longer than the bridge's time-out), against a Wishbone memory BFM. Non-trivial = the monitor of the case saw at least a few "
         "complete frames / events; distinct = distinct case digests")
 ASSUMPTIONS = [
     "migen tracer shim (names only)",
@@ -61,19 +63,21 @@ FLOORS = {
               "n_spi_lengths": 20, "n_spi_start_phases": 50, "spi_slave_frames": 100, "i2c_bits": 2000, "i2c_start_stop_seen": 160,
               "i2c_bytes_written": 120, "i2c_bytes_read": 60, "timer_cycles_compared": 12000, "timer_zero_events": 1000,
               "timer_one_shots_timed": 80, "timer_value_latches": 200, "watchdog_cycles": 9000, "watchdog_timeouts": 250,
-              "watchdog_saturated_cycles": 3000, "waittimer_runs": 300, "timeline_sequences": 900, "pwm_periods": 600},
+              "watchdog_saturated_cycles": 3000, "waittimer_runs": 300, "timeline_sequences": 900, "pwm_periods": 600, "bone_commands": 1500,
+              "bone_wishbone_cycles": 2500, "bone_read_bytes": 3500, "bone_truncated_commands": 150, "bone_unknown_commands": 200},
     "thorough": {"uart_tx_frames_decoded": 4000, "uart_rx_bytes_delivered": 4000, "uart_rx_bad_stop_frames": 200, "uart_rx_zero_gap_frames": 900,
                  "uart_full_tx_frames": 500, "uart_full_rx_bytes": 500, "n_uart_tx_tuning_words": 8, "n_uart_rx_tuning_words": 8,
                  "n_uart_rx_phase_offsets_16th": 16, "spi_frames": 8000, "spi_clock_edges_checked": 70000, "n_spi_dividers": 14,
                  "n_spi_lengths": 30, "n_spi_start_phases": 66, "spi_slave_frames": 800, "i2c_bits": 25000, "i2c_start_stop_seen": 2000,
                  "i2c_bytes_written": 1500, "i2c_bytes_read": 800, "timer_cycles_compared": 120000, "timer_zero_events": 8000,
                  "timer_one_shots_timed": 600, "timer_value_latches": 2000, "watchdog_cycles": 80000, "watchdog_timeouts": 2000,
-                 "watchdog_saturated_cycles": 20000, "waittimer_runs": 500, "timeline_sequences": 5000, "pwm_periods": 3000},
+                 "watchdog_saturated_cycles": 20000, "waittimer_runs": 500, "timeline_sequences": 5000, "pwm_periods": 3000, "bone_commands": 30000,
+                 "bone_wishbone_cycles": 50000, "bone_read_bytes": 70000, "bone_truncated_commands": 3000, "bone_unknown_commands": 4000},
 }
 SHARD_TIMEOUT = {"quick": 600, "thorough": 3000}
 N_SAMPLES = 5
 
-MODS = (c19_uart, c19_spi, c19_i2c, c19_timers)
+MODS = (c19_uart, c19_spi, c19_i2c, c19_timers, c19_bone)
 RUN = {}
 for _m in MODS:
     RUN.update(_m.RUN)
@@ -81,7 +85,7 @@ for _m in MODS:
 # rough cost of one case in seconds of one core (measured), used only to balance shards
 COST = {"uart_tx": 0.35, "uart_rx": 0.45, "uart_full": 7.0, "spi_master": 0.4, "spi_master_divchange": 0.1, "spi_slave": 0.35,
         "i2c": 1.6, "i2c_overlap": 0.25, "timer": 0.55, "timer_periodic_doc": 0.1, "watchdog": 0.5, "watchdog_delay0": 0.3,
-        "waittimer": 0.15, "timeline": 0.1, "pwm": 0.06}
+        "waittimer": 0.15, "timeline": 0.1, "pwm": 0.06, "uartbone": 1.5}
 
 
 def plan(tier, seed):
